@@ -1,6 +1,130 @@
-// PBO steps (C17). Filled in later.
+// PBO steps (C17): open an archive image through rvutils::pbo::pbofile, map it into the VM's file layer and
+// request entries, with allocation accounting through the sanitizer's malloc hooks.
 #include "sim.h"
+#include "rvutils/pbofile.hpp"
+#include "fileio/default.h"
+
+#include <filesystem>
+#include <fstream>
+
+extern "C" int __sanitizer_install_malloc_and_free_hooks(void (*malloc_hook)(const volatile void*, size_t), void (*free_hook)(const volatile void*));
+
 namespace sim
 {
-    bool step_pbo(const json&) { return false; }
+    namespace
+    {
+        bool acc_on = false;
+        uint64_t acc_total = 0;
+        uint64_t acc_max = 0;
+        bool hooks_installed = false;
+        void on_malloc(const volatile void*, size_t n)
+        {
+            if (!acc_on) return;
+            acc_total += n;
+            if (n > acc_max) acc_max = n;
+        }
+        void on_free(const volatile void*) {}
+        void acc_begin()
+        {
+            if (!hooks_installed) { __sanitizer_install_malloc_and_free_hooks(on_malloc, on_free); hooks_installed = true; }
+            acc_total = 0; acc_max = 0; acc_on = true;
+        }
+        void acc_end() { acc_on = false; }
+    }
+
+    bool step_pbo(const json& st)
+    {
+        std::string d = st.at("do").get<std::string>();
+        if (d == "pbo_open")
+        {
+            std::string path = st.at("path").get<std::string>();
+            fprintf(stderr, "@pbo open\n");
+            std::string exc;
+            json attrs = json::array(), files = json::array(), entries = json::array();
+            bool good = false;
+            acc_begin();
+            try
+            {
+                rvutils::pbo::pbofile pbo{ std::filesystem::path(path) };
+                good = pbo.good();
+                if (good)
+                {
+                    for (auto key : { "prefix", "product", "version", "k1", "k2", "k3" })
+                    {
+                        auto v = pbo.attribute(key);
+                        if (v.has_value()) attrs.push_back({ key, b64enc(*v) });
+                    }
+                    for (auto& f : pbo.files())
+                    {
+                        files.push_back({ b64enc(f.name), (uint64_t)f.size });
+                    }
+                    size_t idx = 0;
+                    for (auto& f : pbo.files())
+                    {
+                        if (idx++ >= 16) break;
+                        rvutils::pbo::pbofile::reader rd;
+                        if (pbo.read(f.name, rd))
+                        {
+                            size_t want = std::min<size_t>(rd.descriptor().size, 1 << 20);
+                            std::string buf;
+                            buf.resize(want);
+                            size_t n = rd.read(buf.data(), (std::streamsize)want);
+                            if (n > want) n = want;
+                            buf.resize(n);
+                            entries.push_back({ b64enc(f.name), (uint64_t)rd.descriptor().size, (uint64_t)n, b64enc(buf) });
+                        }
+                        else
+                        {
+                            entries.push_back({ b64enc(f.name), (uint64_t)f.size, -1, "" });
+                        }
+                    }
+                }
+            }
+            catch (const std::exception& e) { exc = e.what(); }
+            acc_end();
+            g->ev({ "pbo", path, good ? 1 : 0, attrs, files, entries, exc, acc_max, acc_total });
+            return true;
+        }
+        if (d == "pbo_map")
+        {
+            auto vm = g->vm_by_id(st.at("vm").get<std::string>());
+            std::string path = st.at("path").get<std::string>();
+            fprintf(stderr, "@pbo map\n");
+            std::string exc;
+            acc_begin();
+            try
+            {
+                auto& fio = static_cast<sqf::fileio::impl_default&>(vm->rt->fileio());
+                fio.add_pbo_mapping(std::filesystem::path(path));
+            }
+            catch (const std::exception& e) { exc = e.what(); }
+            acc_end();
+            g->ev({ "pbo_map", path, exc, acc_max, acc_total });
+            return true;
+        }
+        if (d == "vfs_read")
+        {
+            auto vm = g->vm_by_id(st.at("vm").get<std::string>());
+            std::string req = st.at("path").get<std::string>();
+            fprintf(stderr, "@pbo vfs_read\n");
+            std::string exc, phys, content;
+            int found = 0;
+            acc_begin();
+            try
+            {
+                auto pi = vm->rt->fileio().get_info(req, {});
+                if (pi.has_value())
+                {
+                    found = 1;
+                    phys = pi->physical;
+                    content = vm->rt->fileio().read_file(*pi);
+                }
+            }
+            catch (const std::exception& e) { exc = e.what(); }
+            acc_end();
+            g->ev({ "vfs_read", req, found, phys, (uint64_t)content.size(), b64enc(content.substr(0, 1 << 20)), exc, acc_max, acc_total });
+            return true;
+        }
+        return false;
+    }
 }
